@@ -503,6 +503,13 @@ def rule_embed_flags(check, model, rule):
             else:
                 check.violation(rule, st, 'stars operand position %d (%s) offers %s' % (idx, kind, show(star)), key=key, effect=show(t),
                                 witness="embed(s('*args'), s('a'), use_varkwargs=False)")
+        elif t[0] == 'IF' and t[1][0] == 'lit' and t[1][1][0] == 'truthy' and t[1][1][1][0] == 'P' and \
+                ((t[1][2] and model.sides.bucket(t[2]) == ('outer', idx) and t[3] == NONE) or
+                 (not t[1][2] and model.sides.bucket(t[3]) == ('outer', idx) and t[2] == NONE)):
+            # `star if flag else None`: the same offer with a real None as placeholder (any test of the slot works)
+            flags[kind] = t[1][1][1]
+            check.holds(rule, st, 'the outer %s is offered to the inner signature only under its own flag %s (None otherwise)' % (kind, t[1][1][1][1]),
+                        key=key, effect=show(t))
         elif model.sides.bucket(t) == ('outer', idx):
             check.violation(rule, st, 'the outer %s is offered to the inner signature unconditionally (its use flag is ignored)' % kind,
                             key=key, effect=show(t), witness="embed(s('a, *args, **kwargs'), s('b'), use_varargs=False) must keep *args")
